@@ -71,7 +71,7 @@ class WildGen:
             this_in_base=False,        # D38: class X : B<This>
             func_templated_inst=True,  # function template instantiated with a templated argument (D37, repaired)
             near_miss=True,            # identifiers that contain a parameter's spelling
-            dunder_param_args=False,   # D39: dunder-method arguments of templated classes are not instantiated
+            dunder_param_args=True,    # dunder-method arguments mention template parameters (D39, repaired)
             multiline_defaults=True,   # default values containing a line break (the line-oriented MATLAB extractors of
                                        # the harness cannot read routines that contain them: switched off there)
             special_names=0.0,         # python keywords / ipython names / print / serialize as member names
